@@ -4,8 +4,9 @@ LEVEL = "proof"
 LEVEL_TEXT = ("Unbounded proof, function by function: each graph view (pairwise connectivity, neighbour list, degrees, "
               "connected component, path validation, heuristic) has a postcondition against one definition of edge()/reach() and every "
               "obligation generated from the current source is discharged by z3 for all grids, cells and connection structures. "
-              "The batch edge test (is_connection) and from_adj_list (bits = exactly the rows' edges, size = max index + 1) are proved as well; get_nodes, the adjacency-list "
-              "view (connection_list_to_adj_list) and the forking-point partition are decided by the bounded stand-in only (all graphs up to 2x3, sampled/all 3x3, random larger), labelled bounded.")
+              "The batch edge test (is_connection), from_adj_list (bits = exactly the rows' edges, size = max index + 1) and the forking / path-following partition of the solution "
+              "(exactly the solution indices and cells, in order, with more than one onward choice at an end and more than two elsewhere; the two lists are complementary) are proved as well; get_nodes and the adjacency-list "
+              "view (connection_list_to_adj_list) are decided by the bounded stand-in only (all graphs up to 2x3, sampled/all 3x3, random larger), labelled bounded.")
 LEVEL_NOTE = ("Trusted: the pyvc encoding of Python/numpy, z3; lemma reach_induction (least-fixed-point principle); list(set) enumeration contract; "
               "numpy int64 treated as mathematical integers; partial correctness (no termination).")
 TECHNIQUE = "contract-based deductive verification of the real functions (AST-derived VCs, z3) + bounded run-time comparison with an independent spec"
@@ -20,6 +21,8 @@ PROVE = [
     (F, "LatticeMaze.gen_connected_component_from"),
     (F, "LatticeMaze.from_adj_list"),
     ("maze_dataset/token_utils.py", "is_connection"),
+    (F, "SolvedMaze.get_solution_forking_points"),
+    (F, "SolvedMaze.get_solution_path_following_points"),
 ]
 ASSUMPTIONS = [
     "leading dimension of connection_list is the constant 2 (type ConnectionList)",
